@@ -71,6 +71,22 @@ def jobs(tier):
                     for sc in ([h, []], [[], h]):
                         out.append({"prop": PROP, "cfg": cfg, "order": order, "base": base, "scripts": A.stamp(sc),
                                     "mode": {"k": k, "cap": 2000, "depth": 60, "audit": 64 if tier == "quick" else 8}})
+    # 3-operation chains on one object family, deviation-bounded around several default schedules (a slow poller on
+    # either side, users ahead of the engine): fixed list = every STRIDE-th related chain
+    chains = [h for h in A.valid_histories(BASES["B1"], A.UEXT, 3) if len(h) == 3 and A.related_chain(h)]
+    stride = 2 if tier == "quick" else 1
+    for cfg in (["oo", "po"] if tier == "quick" else ["oo", "po", "pp", "op"]):
+        for i, h in enumerate(chains):
+            if i % stride:
+                continue
+            for oname in (("lazy-remote-intake", "lazy-local-intake", "users-first") if tier == "quick" else list(A.ORDERS)):
+                order = A.ORDERS[oname]
+                for sc, od in (([h, []], order), ([[], h], A.mirror_order(order))):
+                    mode = {"k": 1 if tier == "quick" else 2, "cap": 1200, "depth": 90, "audit": 0}
+                    if od:
+                        mode["order"] = od
+                    out.append({"prop": PROP, "cfg": cfg, "order": "asc", "base": "B1", "scripts": A.stamp(sc), "mode": mode,
+                                "schedule": oname})
     return out
 
 
